@@ -466,6 +466,11 @@ func runC04x(c *c04Case) (v verdict, sig string, err error, cache *flowCache, mo
 			if op.Op == "announce+data" {
 				m.Sets = append(m.Sets, wire.Set{Kind: "data", Tpl: op.Tpl, Recs: op.Recs, Pad: op.Pad})
 			}
+			if len(m.Bytes()) > 65507 {
+				// does not fit a datagram: outside the domain; the history ends here
+				v.label(true, "history-cut-at-oversize-message")
+				return v, "", nil, cache, model
+			}
 			res, perr := cache.decodeFlow(addr, m.Bytes())
 			if perr != nil {
 				return v, "panic", step("%v", perr), cache, model
@@ -528,6 +533,11 @@ func runC04x(c *c04Case) (v verdict, sig string, err error, cache *flowCache, mo
 				}
 				seenData[ms.Slot] = true
 			}
+			if len(m.Bytes()) > 65507 {
+				// does not fit a datagram: outside the domain; the history ends here
+				v.label(true, "history-cut-at-oversize-message")
+				return v, "", nil, cache, model
+			}
 			res, perr := cache.decodeFlow(addr, m.Bytes())
 			if perr != nil {
 				return v, "panic", step("%v", perr), cache, model
@@ -545,6 +555,11 @@ func runC04x(c *c04Case) (v verdict, sig string, err error, cache *flowCache, mo
 			}
 			m := hdr()
 			m.Sets = append(m.Sets, wire.Set{Kind: "data", Tpl: tp, Recs: op.Recs, Pad: op.Pad})
+			if len(m.Bytes()) > 65507 {
+				// does not fit a datagram: outside the domain; the history ends here
+				v.label(true, "history-cut-at-oversize-message")
+				return v, "", nil, cache, model
+			}
 			res, perr := cache.decodeFlow(addr, m.Bytes())
 			if perr != nil {
 				return v, "panic", step("%v", perr), cache, model
@@ -564,6 +579,11 @@ func runC04x(c *c04Case) (v verdict, sig string, err error, cache *flowCache, mo
 			}
 			m := hdr()
 			m.Sets = append(m.Sets, wire.Set{Kind: "raw", RawID: sl.ID, RawBody: []byte{0, 1, 2, 3, 4, 5, 6, 7, 8, 9, 10, 11}})
+			if len(m.Bytes()) > 65507 {
+				// does not fit a datagram: outside the domain; the history ends here
+				v.label(true, "history-cut-at-oversize-message")
+				return v, "", nil, cache, model
+			}
 			res, perr := cache.decodeFlow(addr, m.Bytes())
 			if perr != nil {
 				return v, "panic", step("%v", perr), cache, model
